@@ -696,25 +696,28 @@ def finder_stream(ctx):
             direct_finder_oracle(ctx, fname, arr, r)
         if n < 2:
             ctx.sample({"finder_case": {"shape": list(shape), "kind": kind, "impl": {k: v for k, v in res.items()}}})
-    header = ("From Coq Require Import ZArith Arith List Bool.\nFrom QV Require Import C04.Model.\nImport ListNotations.\n")
-    failed, errors = ctx.coq_cases("finders", header, cases, shard=520)
+    cid = finder_float_cases(ctx, cases, info, cid)
+    header = ("From Coq Require Import ZArith QArith Arith List Bool.\nFrom QV Require Import C04.Model.\nImport ListNotations.\n"
+              "Close Scope Q_scope.\n")
+    failed, errors = ctx.coq_cases("finders", header, cases, shard=1000)
     for path, err in errors:
         ctx.broken_obligation("correspondence:finders:" + path.split("/")[-1], err)
     seen = set()
     for c in failed:
         d = info[c]
-        if d["fn"] in seen:
+        if (d["fn"], d.get("class", "")) in seen:
             continue
-        seen.add(d["fn"])
-        ctx.violation(f"{d['fn']}:model_mismatch",
+        seen.add((d["fn"], d.get("class", "")))
+        ctx.violation(f"{d['fn']}:model_mismatch" + d.get("class", ""),
                       f"{d['fn']} returned {d['impl']} but the specified model (least pair with the structure) disagrees",
                       d)
     ctx.extra["finder_cases"] = len(cases)
 
 
-def _holds(fname, arr, p):
+def _holds(fname, arr, p, atol=1e-12):
+    """the documented rule: every entry off the structure satisfies abs(x) <= atol"""
     idx = np.indices(arr.shape)
-    nzm = np.abs(arr) > 1e-12
+    nzm = np.abs(arr) > atol
     if fname == "find_diag_axes":
         i, j = p
         return arr.shape[i] == arr.shape[j] and not np.any(nzm & (idx[i] != idx[j]))
@@ -725,17 +728,89 @@ def _holds(fname, arr, p):
     return not np.any(nzm & (idx[ax] != c))
 
 
-def direct_finder_oracle(ctx, fname, arr, r):
+def finder_reference(fname, arr, atol=1e-12):
     nd = arr.ndim
     if fname == "find_columns":
         cands = [(ax, c) for ax in range(nd) for c in range(arr.shape[ax])]
     else:
         cands = [(i, j) for i in range(nd) for j in range(i + 1, nd)]
-    good = [p for p in cands if _holds(fname, arr, p)]
-    want = min(good) if good else None
+    good = [p for p in cands if _holds(fname, arr, p, atol)]
+    return min(good) if good else None
+
+
+def direct_finder_oracle(ctx, fname, arr, r, atol=1e-12, cls=""):
+    want = finder_reference(fname, arr, atol)
     if want != r:
-        ctx.violation(f"{fname}:wrong", f"{fname} returned {r}, the least pair with the structure is {want}",
-                      {"fn": fname, "shape": list(arr.shape), "data": np.asarray(arr).reshape(-1).tolist()})
+        ctx.violation(f"{fname}:wrong{cls}", f"{fname}(atol={atol:g}) returned {r}, the least pair whose off-structure entries all satisfy "
+                      f"abs(x) <= atol is {want}",
+                      {"fn": fname, "atol": atol, "shape": list(arr.shape),
+                       "data": [[float(np.real(v)), float(np.imag(v))] for v in np.asarray(arr).reshape(-1)]})
+
+
+SMALLS = [0.0, 1e-13, 9e-13, 2e-12, 1e-9, 3e-7, 1e-5]
+
+
+def small_fill(rng, arr, level, cplx):
+    """replace the exact zeros of a structured array by entries of magnitude `level` (random sign / phase)"""
+    out = np.array(arr, dtype=complex if cplx else float)
+    flat = out.reshape(-1)
+    for k in range(flat.size):
+        if flat[k] == 0:
+            ph = rng.choice([1, -1, 1j, -1j, (1 + 1j) / np.sqrt(2)]) if cplx else rng.choice([1, -1])
+            flat[k] = level * ph
+    return out
+
+
+def finder_float_cases(ctx, cases, info, cid):
+    """finders on FLOAT arrays whose off-structure entries straddle atol and sqrt(atol): implementation vs the documented rule
+    abs(x) > atol (numpy reference) and vs the Coq model run on the thresholded mask."""
+    from quimb.tensor import array_ops as ao
+
+    rng = ctx.rng
+    for n in range(ctx.n(110, 1200)):
+        nd = rng.choice([1, 2, 2, 3, 3])
+        d = rng.choice([2, 2, 3])
+        shape = (d,) * nd if rng.random() < 0.6 else tuple(rng.choice([1, 2, 3]) for _ in range(nd))
+        cplx = rng.random() < 0.4
+        base, kind = struct_array(rng, shape, cplx, kinds=["diag", "antidiag", "column", "column", "twocol", "onehot_f", "copy"])
+        if kind == "onehot_f":
+            base = np.zeros(shape)
+            base[tuple(rng.randrange(k) for k in shape)] = rng.choice([-2.0, 1.0, 3.0])
+        level = rng.choice(SMALLS)
+        arr = small_fill(rng, base, level, cplx)
+        if rng.random() < 0.3:
+            arr = arr * rng.choice([1e-3, 10.0, 1e4])  # the threshold is absolute, not relative to the data
+        atol = 1e-12 if rng.random() < 0.75 else rng.choice([1e-8, 1e-6, 1e-15])
+        arr = np.array(arr, order="C")
+        ctx.bump(f"finder_float:level={level:g}")
+        for fname in ("find_diag_axes", "find_antidiag_axes", "find_columns"):
+            try:
+                r = getattr(ao, fname)(arr, atol=atol)
+            except Exception as e:
+                ctx.violation(f"{fname}:raised", f"{fname} raised {type(e).__name__}: {str(e)[:100]}",
+                              {"fn": fname, "shape": list(shape), "atol": atol, "data": np.asarray(arr).reshape(-1).tolist()})
+                continue
+            if r is not None:
+                r = (int(r[0]), int(r[1]))
+            ctx.count((fname, "float", shape, arr.tobytes().hex()[:64], atol), True)
+            direct_finder_oracle(ctx, fname, arr, r, atol, cls=":tolerance")
+            cid += 1
+            info[cid] = {"fn": fname, "shape": list(arr.shape), "atol": atol, "impl": r, "kind": "float:" + kind,
+                         "data": [[float(np.real(v)), float(np.imag(v))] for v in np.asarray(arr).reshape(-1)],
+                         "class": ":tolerance"}
+            exp = "None" if r is None else f"(Some ({r[0]}%nat, {r[1]}%nat))"
+            # exact: floats are dyadic rationals; the tolerance test |x|^2 > atol^2 is evaluated inside Coq (nzQ)
+            cases.append((cid, f"opt_pair_eqb ({fname}_Q {qlit(atol)} {natlist(arr.shape)} {qclist(arr)}) {exp}"))
+    return cid
+
+
+def qlit(x):
+    n, d = float(x).as_integer_ratio()
+    return f"(Qmake ({n})%Z {d}%positive)"
+
+
+def qclist(arr):
+    return "[" + "; ".join(f"({qlit(np.real(v))}, {qlit(np.imag(v))})" for v in np.asarray(arr).reshape(-1)) + "]"
 
 
 
@@ -1260,6 +1335,242 @@ def check_canonical_region(ctx, netid, tn0, after, region):
                       {"net": netid, "pass": "canonize_around", "region": region, "tensors": net_dump(tm.qtn_tensors(tn0))})
 
 
+# ----------------------------------------------------------------------------
+# structure passes on FLOAT networks whose "zeros" straddle atol and sqrt(atol)
+
+
+def tolerance_pass_stream(ctx):
+    """column_reduce / diagonal_reduce / antidiag_gauge / full_simplify on float networks: the planted structure holds only up
+    to entries of magnitude `level`; a pass may use the structure only when level <= atol, so the value must be preserved up
+    to atol * (product of tensor norms) - far below the effect of wrongly dropping entries of size 1e-9 .. 1e-5."""
+    rng = ctx.rng
+    atol = 1e-12
+    for n in range(ctx.n(45, 500)):
+        cplx = rng.random() < 0.4
+        tn, kinds, outs = targeted_network(rng, cplx)
+        level = rng.choice([1e-13, 1e-9, 3e-7, 3e-7, 1e-5, 1e-5])
+        ts = list(tn.tensors)
+        ts[0].modify(data=small_fill(rng, np.asarray(ts[0].data), level, cplx))
+        for t in ts[1:]:
+            # large, dense neighbours: a wrongly dropped small component is amplified
+            a = np.asarray(t.data)
+            a = (a + (a == 0) * rng.choice([1, -1, 2])) * float(rng.choice([1.0, 1e3, 2e7]))
+            t.modify(data=a.astype(complex if cplx else float))
+        tn.exponent = float(rng.choice([0, 0, 1, -2]))
+        before = tm.qtn_tensors(tn)
+        e0 = float(tn.exponent)
+        P = float(np.prod([max(1.0, np.linalg.norm(np.asarray(a))) for _, a in before]))
+        netid = f"t{n}"
+        ctx.bump(f"tolnet:level={level:g}")
+        ctx.bump("tolnet:" + kinds[0])
+        for name, args in [("column_reduce", {}), ("diagonal_reduce", {}), ("antidiag_gauge", {}),
+                           ("full_simplify", {"seq": "C"}), ("full_simplify", {"seq": "D"}), ("full_simplify", {"seq": "AD"}),
+                           ("full_simplify", {"seq": "ADCR"})]:
+            desc = {"net": netid, "pass": name, "args": args, "outs": list(outs), "explicit_outs": True, "exponent": e0,
+                    "stream": "tolerance", "level": level, "tensors": net_dump(before)}
+            key = name
+            try:
+                with warnings.catch_warnings():
+                    warnings.simplefilter("ignore")
+                    after, _ = PASSES[name](tn.copy(), tuple(outs), args)
+            except Exception as e:
+                ctx.violation(f"{key}:raised:{type(e).__name__}", f"{name} {args} raised {type(e).__name__}: {str(e)[:100]}", desc)
+                continue
+            ctx.count((netid, name, json.dumps(args)), changed(tn, after))
+            try:
+                ref = np_dense(before, outs, e0)
+                got = np_dense(tm.qtn_tensors(after), outs, float(np.real(after.exponent)))
+                scale = float(np.max(np.abs(ref))) if ref.size else 0.0
+                tol = 1e-9 * scale + 1e2 * atol * P * 10.0 ** e0
+                err = float(np.max(np.abs(ref - got))) if ref.shape == got.shape and ref.size else (0.0 if ref.shape == got.shape else float("inf"))
+                ok = np.all(np.isfinite(got)) and err <= tol
+                msg = f"max abs err {err:.3e} > allowed {tol:.3e} (data scale {scale:.3e})"
+            except Exception as e:
+                ok, msg = False, f"{type(e).__name__}: {e}"
+            if not ok:
+                ctx.violation(f"{key}:value:entries_between_atol_and_sqrt_atol" if atol < level <= 1e-5 else f"{key}:value",
+                              f"{name} {args} on a float network whose off-structure entries have magnitude {level:g} (atol={atol:g}) "
+                              f"changed the denoted tensor over {list(outs)}: {msg}", desc)
+
+
+# ----------------------------------------------------------------------------
+# gauged networks: (tn, gauges) denotes tn with sqrt(gauge) absorbed on both ends of each gauged bond,
+# i.e. the network with the diagonal gauge inserted on the bond (Rw_gauge / C04_insert_gauge_sound with diagonal A, B)
+
+
+def gauged_dense(tn, gauges, outs):
+    t = tn.copy()
+    t.gauge_simple_insert({k: np.asarray(v) for k, v in gauges.items() if k in t.ind_map})
+    return np_dense(tm.qtn_tensors(t), outs, float(np.real(t.exponent)))
+
+
+def g_fuse_multibonds(tn, g, a):
+    return tn.fuse_multibonds(gauges=g)
+
+
+def g_fuse_squeeze(tn, g, a):
+    import quimb.tensor as qtn
+
+    qtn.tensor_fuse_squeeze(tn[a["t1"]], tn[a["t2"]], gauges=g)
+    return tn
+
+
+def g_fuse_squeeze_all(tn, g, a):
+    import quimb.tensor as qtn
+
+    for x, y in a["pairs"]:
+        if x in tn.tag_map and y in tn.tag_map and qtn.bonds(tn[x], tn[y]):
+            qtn.tensor_fuse_squeeze(tn[x], tn[y], gauges=g)
+    return tn
+
+
+def g_make_single_bond(tn, g, a):
+    from quimb.tensor.tensor_core import tensor_make_single_bond
+
+    tensor_make_single_bond(tn[a["t1"]], tn[a["t2"]], gauges=g)
+    return tn
+
+
+def g_contract_between(tn, g, a):
+    tn.contract_between(a["t1"], a["t2"], gauges=g)
+    return tn
+
+
+def g_canonize_between(tn, g, a):
+    tn.canonize_between(a["t1"], a["t2"], absorb=a["absorb"], gauges=g, gauge_smudge=0.0)
+    return tn
+
+
+def g_compress_between(tn, g, a):
+    tn.compress_between(a["t1"], a["t2"], max_bond=None, cutoff=0.0, gauges=g, gauge_smudge=0.0)
+    return tn
+
+
+def g_gauge_all_canonize(tn, g, a):
+    return tn.gauge_all_canonize(max_iterations=a["its"], gauges=g, gauge_smudge=0.0)
+
+
+def g_gauge_all_simple(tn, g, a):
+    return tn.gauge_all_simple(max_iterations=a["its"], gauges=g, smudge=0.0)
+
+
+def g_compress_all_simple(tn, g, a):
+    return tn.compress_all_simple(max_bond=None, cutoff=0.0, gauges=g, max_iterations=a["its"], smudge=0.0)
+
+
+GAUGED = {
+    "fuse_multibonds[gauges]": g_fuse_multibonds, "tensor_fuse_squeeze[gauges]": g_fuse_squeeze,
+    "tensor_fuse_squeeze[gauges,all_pairs]": g_fuse_squeeze_all, "tensor_make_single_bond[gauges]": g_make_single_bond,
+    "contract_between[gauges]": g_contract_between, "canonize_between[gauges]": g_canonize_between,
+    "compress_between[gauges]": g_compress_between, "gauge_all_canonize[gauges]": g_gauge_all_canonize,
+    "gauge_all_simple[gauges,supplied]": g_gauge_all_simple, "compress_all_simple[gauges]": g_compress_all_simple,
+}
+
+
+def rand_gauged_network(rng, nprng, cplx):
+    """float network whose bonds include size-1 bonds and 1x1 / 1xd multibonds, with un-normalised positive gauges."""
+    import quimb.tensor as qtn
+
+    n = rng.randint(2, 4)
+    edges = [(rng.randrange(k), k) for k in range(1, n)]
+    if rng.random() < 0.7:
+        edges.append(rng.choice(edges))  # a multibond
+    if rng.random() < 0.3 and n >= 3:
+        i, j = sorted(rng.sample(range(n), 2))
+        edges.append((i, j))
+    inds = {k: [] for k in range(n)}
+    dims, gauges = {}, {}
+    for e, (i, j) in enumerate(edges):
+        b = f"b{e}"
+        dims[b] = rng.choice([1, 1, 1, 2, 2, 3])
+        inds[i].append(b)
+        inds[j].append(b)
+        if rng.random() < 0.85:
+            if dims[b] == 1:
+                gauges[b] = np.array([rng.choice([0.5, 3.0, 0.25, 1.0, 2.0])])
+            else:
+                gauges[b] = np.sort(nprng.uniform(0.2, 3.0, size=dims[b]))[::-1].copy()
+    c = 0
+    for k in range(n):
+        for _ in range(rng.choice([1, 1, 2])):
+            o = f"k{c}"
+            c += 1
+            dims[o] = rng.choice([2, 2, 3, 4])
+            inds[k].append(o)
+        rng.shuffle(inds[k])
+    ts = []
+    for k in range(n):
+        shape = [dims[x] for x in inds[k]]
+        a = nprng.normal(size=shape)
+        if cplx:
+            a = a + 1j * nprng.normal(size=shape)
+        ts.append(qtn.Tensor(a, tuple(inds[k]), tags=[f"T{k}"]))
+    return qtn.TensorNetwork(ts), edges, gauges
+
+
+def gauged_stream(ctx):
+    rng = ctx.rng
+    nprng = np.random.default_rng(ctx.seed + 4041)
+    for n in range(ctx.n(40, 400)):
+        cplx = rng.random() < 0.4
+        tn, edges, gauges = rand_gauged_network(rng, nprng, cplx)
+        outs = tuple(tn.outer_inds())
+        netid = f"g{n}"
+        i, j = rng.choice(edges)
+        t1, t2 = (f"T{i}", f"T{j}") if rng.random() < 0.5 else (f"T{j}", f"T{i}")
+        pairs = [[f"T{a}", f"T{b}"] for a, b in dict.fromkeys(edges)]
+        ref = gauged_dense(tn, gauges, outs)
+        scale = max(1.0, float(np.max(np.abs(ref))))
+        if any(tn.ind_size(b) == 1 and float(g[0]) != 1.0 for b, g in gauges.items()):
+            ctx.bump("gnet:size1_bond_with_unnormalised_gauge")
+        jobs = [("fuse_multibonds[gauges]", {}), ("tensor_fuse_squeeze[gauges]", {"t1": t1, "t2": t2}),
+                ("tensor_fuse_squeeze[gauges,all_pairs]", {"pairs": pairs}), ("tensor_make_single_bond[gauges]", {"t1": t1, "t2": t2}),
+                ("contract_between[gauges]", {"t1": t1, "t2": t2}),
+                ("canonize_between[gauges]", {"t1": t1, "t2": t2, "absorb": rng.choice(["right", "left", "both"])}),
+                ("compress_between[gauges]", {"t1": t1, "t2": t2}),
+                ("gauge_all_canonize[gauges]", {"its": rng.randint(1, 2)}),
+                ("gauge_all_simple[gauges,supplied]", {"its": rng.randint(1, 3)}),
+                ("compress_all_simple[gauges]", {"its": rng.randint(1, 2)})]
+        for name, args in jobs:
+            gauged_check(ctx, netid, tn, gauges, outs, name, args)
+
+
+def gauged_check(ctx, netid, tn, gauges, outs, name, args):
+    ref = gauged_dense(tn, gauges, outs)
+    scale = max(1.0, float(np.max(np.abs(ref))))
+    if True:
+        if True:
+            key = name.split("[")[0]
+            desc = {"net": netid, "pass": name, "args": args, "outs": list(outs), "stream": "gauged", "exponent": 0.0,
+                    "gauges": {k: np.asarray(v).tolist() for k, v in gauges.items()}, "tensors": net_dump(tm.qtn_tensors(tn))}
+            ctx.bump("gauged:" + name)
+            g = {k: np.array(v, dtype=float) for k, v in gauges.items()}
+            try:
+                with warnings.catch_warnings():
+                    warnings.simplefilter("ignore")
+                    after = GAUGED[name](tn.copy(), g, args)
+            except Exception as e:
+                cls = ""
+                if isinstance(e, KeyError) and str(e).strip("'") in tn.ind_map and str(e).strip("'") not in gauges \
+                        and tn.ind_size(str(e).strip("'")) == 1:
+                    cls = ":size1_bond_without_gauge"
+                ctx.violation(f"{key}:gauges:raised:{type(e).__name__}{cls}",
+                              f"{name} {args} raised {type(e).__name__}: {str(e)[:120]} on a gauged network", desc)
+                return
+            ctx.count((netid, name, json.dumps(args)), changed(tn, after) or set(g) != set(gauges))
+            try:
+                stale = [k for k in g if k not in after.ind_map]
+                got = gauged_dense(after, g, outs)
+                err = float(np.max(np.abs(got - ref))) if got.shape == ref.shape else float("inf")
+                ok = np.all(np.isfinite(got)) and err <= TOL * scale and not stale
+                msg = f"max abs err {err:.3e} (scale {scale:.3e})" + (f"; gauges kept for vanished bonds {stale}" if stale else "")
+            except Exception as e:
+                ok, msg = False, f"{type(e).__name__}: {e}"
+            if not ok:
+                ctx.violation(f"{key}:gauges:value", f"the gauged network (gauges inserted on their bonds) after {name} {args} no longer denotes "
+                              f"the same tensor over {list(outs)}: {msg}", desc)
+
+
 def corpus_stream(ctx, col):
     """minimised past failures (corpus/C04/*.json), run first."""
     import glob
@@ -1270,9 +1581,21 @@ def corpus_stream(ctx, col):
     for path in sorted(glob.glob(os.path.join(VERIF, "corpus", "C04", "*.json"))):
         r = json.load(open(path))
         name = os.path.basename(path)[:-5]
+        ctx.bump("corpus")
+        if r.get("stream") == "finder":
+            from quimb.tensor import array_ops as ao
+
+            arr = np.array([complex(a, b) for a, b in r["data"]]).reshape(r["shape"])
+            arr = np.array(arr.real if not np.any(arr.imag) else arr, order="C")
+            res = getattr(ao, r["fn"])(arr, atol=r.get("atol", 1e-12))
+            res = None if res is None else (int(res[0]), int(res[1]))
+            direct_finder_oracle(ctx, r["fn"], arr, res, r.get("atol", 1e-12), cls=":tolerance")
+            continue
         tn = net_load(r["tensors"], r.get("exponent", 0))
         outs = tuple(r["outs"])
-        ctx.bump("corpus")
+        if r.get("stream") == "gauged":
+            gauged_check(ctx, "corpus:" + name, tn, {k: np.array(v) for k, v in r["gauges"].items()}, outs, r["pass"], r["args"])
+            continue
         if r.get("stream") == "oracle":
             sizes0 = pair_bond_sizes(tn)
             after = oracle_pass(ctx, "corpus:" + name, tn, r["pass"], r["args"], outs, False,
@@ -1329,7 +1652,7 @@ def run(ctx):
     t = time.time()
     ctx.check_props(["C04/Model.vo", "C04/Rules.vo", "C04/Proofs.vo", "C04/Finders.vo", "C04/Props.v"])
     walls["props"] = round(time.time() - t, 1)
-    for fn in (finder_stream, correspondence, oracle_stream):
+    for fn in (finder_stream, correspondence, tolerance_pass_stream, gauged_stream, oracle_stream):
         t = time.time()
         ctx.stage(fn)
         walls[fn.__name__] = round(time.time() - t, 1)
@@ -1341,7 +1664,19 @@ def replay(ctx, path):
     d = json.load(open(path))
     r = d.get("replay", {})
     print(json.dumps({k: v for k, v in d.items() if k != "replay"}, indent=1)[:1500])
-    if "tensors" in r and "pass" in r:
+    if r.get("stream") == "gauged" and "tensors" in r:
+        tn = net_load(r["tensors"], r.get("exponent", 0))
+        gauged_check(ctx, "replay", tn, {k: np.array(v) for k, v in r["gauges"].items()}, tuple(r["outs"]), r["pass"], r["args"])
+        print("replayed gauged pass; violations so far:", [v[0] for v in ctx.violations])
+    elif "fn" in r and "data" in r and "shape" in r:
+        from quimb.tensor import array_ops as ao
+
+        flat = [complex(*v) if isinstance(v, (list, tuple)) else complex(v) for v in r["data"]]
+        arr = np.array(flat).reshape(r["shape"])
+        arr = np.array(arr.real if not np.any(arr.imag) else arr, order="C")
+        res = getattr(ao, r["fn"])(arr, atol=r.get("atol", 1e-12))
+        print(f"replayed {r['fn']}: returned {res}, documented rule gives {finder_reference(r['fn'], arr, r.get('atol', 1e-12))}")
+    elif "tensors" in r and "pass" in r:
         tn = net_load(r["tensors"], r.get("exponent", 0))
         outs = tuple(r.get("outs", tn.outer_inds()))
         try:
